@@ -89,6 +89,16 @@ def all (m : Dec α) : Nat → IterSt → List (Ev α) × IterSt
     | (.error e, s') => ([.error e], s')
     | (.panic, s')   => ([.panic], s')
 
+/-- `while let Some(x) = it.next() { show(x) }` carrying on after failed elements, at most `cap` answers. -/
+def allx (m : Dec α) : Nat → IterSt → List (Ev α) × IterSt
+  | 0, s => ([], s)
+  | cap + 1, s =>
+    match iterNext m s with
+    | (.done, s')    => ([], s')
+    | (.item a, s')  => let (evs, s'') := allx m cap s'; (.item a :: evs, s'')
+    | (.error e, s') => let (evs, s'') := allx m cap s'; (.error e :: evs, s'')
+    | (.panic, s')   => ([.panic], s')
+
 /-- `n` calls of `next()` whose answers are dropped (errors included); stops early at `None`.  Returns whether `None` was met. -/
 def advance (m : Dec α) : Nat → IterSt → Bool × IterSt
   | 0, s => (false, s)
